@@ -460,7 +460,9 @@ def _validate(cfg: dict, family) -> None:
 
 
 def _run(work: str, case, o: Oracle) -> None:
-    wd = os.path.join(work, "case-%d-%d" % (os.getpid(), next(_COUNTER)))
+    # one directory per worker, emptied for every case: the same file names come back with other keys and data
+    wd = os.path.join(work, "case-%d" % os.getpid())
+    shutil.rmtree(wd, ignore_errors=True)
     os.makedirs(wd, exist_ok=True)
     try:
         _run_in(wd, case, o)
@@ -635,6 +637,38 @@ def _run_in(wd: str, case, o: Oracle) -> None:
                 "application of the parsed container: %d bytes, differs from the stored %d bytes (modulo the fill up to the CSF)" % (len(got), len(stored)))
         if flags and p2.csf_segment is not None and L is not None and L.csf_off is not None:
             o.eq("roundtrip", "csf_bytes", p2.csf_segment.export(), data[L.csf_off : L.csf_off + H.CSF_SPACE])
+
+    # ---- the same object exported once more is an equally good image
+    data2 = None
+    with o.spsdk("export_again"):
+        data2 = bytes(hab.export())
+    if data2 is not None:
+        if not flags:
+            o.check("export_again", data2 == data, "bytes", "second export of the same (unsigned) container differs")
+        else:
+            o.eq("export_again", "length", len(data2), len(data))
+            try:
+                L2 = H.Layout(data2)
+                dek2 = b.dek
+                if flags == 0xC:
+                    try:
+                        with open(b.dek_file, "rb") as f:
+                            dek2 = f.read()
+                    except OSError:
+                        pass
+                r2 = H.run_csf(L2, dek2) if L2.csf_off is not None else None
+                if r2 is None:
+                    o.fail("export_again", "no_csf", "second export carries no CSF")
+                else:
+                    o.check("export_again", r2.csf_authenticated, "csf_not_authenticated", "second export: %s" % [d for k, d in r2.problems][:3])
+                    o.check("export_again", len(r2.data_auth) == 1 and r2.data_auth[0]["ok"], "data_not_authenticated", "second export: %s" % [(x["ok"], x["why"]) for x in r2.data_auth])
+                    if flags == 0xC:
+                        o.check("export_again", len(r2.decrypt) == 1 and r2.decrypt[0]["ok"] and r2.decrypt[0]["plain"] == padded, "decrypt",
+                                "second export does not decrypt to the application: %s" % [(x["ok"], x["why"]) for x in r2.decrypt])
+                    else:
+                        o.eq("export_again", "app_bytes", data2[app_off : app_off + len(padded)], padded)
+            except H.HabFormatError as exc:
+                o.fail("export_again", "format", str(exc))
 
     if not flags or L is None or L.csf_off is None:
         return
